@@ -142,7 +142,11 @@ pub fn eval(expr: Node) -> Result<Decimal, Box<dyn error::Error>> {
                 #[cfg(feature = "verif_hooks")]
                 crate::verif_hooks::tick_loop();
                 x += Decimal::new(1, 0);
-                n = (n.log10() / b.log10()).floor();
+                let next = (n.log10() / b.log10()).floor();
+                if next >= n {
+                    return Err("The iterated logarithm does not terminate for this base.".into());
+                }
+                n = next;
             }
             Ok(x)
         }
